@@ -168,6 +168,7 @@ func TestVerif_C04_Schedules(t *testing.T) {
 	m.Require("evaluations", int64(n))
 	m.Require("alpha_decoded_inside_write", int64(n))
 	m.Require("porcupine_ok_histories", int64(n*9/10))
+	m.Require("runs_with_large_requests", int64(n/6))
 	mon.Parallel(n, func(w, i int) {
 		r := m.Rand("sched", i)
 		m.Case()
@@ -184,6 +185,19 @@ func TestVerif_C04_Schedules(t *testing.T) {
 		nreq := r.Range(1, 20)
 		rep := map[string]interface{}{"case": i}
 		var scheds []string
+		// a third of the runs raise the output chunk size first and send large requests, so that a request
+		// reaches the transport in several Write calls (bufio spills) before the writer's final flush
+		bigReq := 0
+		if r.Chance(1, 3) {
+			scs := NewSetChunkSize()
+			scs.ChunkSize = uint32(r.Pick(4096, 8192, 20000, 60000, 70000))
+			if err := ep.WritePacket(scs, 0); err != nil {
+				m.Violationf("c04:write-error", rep, "%v", err)
+			}
+			bigReq = r.Pick(3000, 5000, 9000, 20000, 60000)
+			scheds = append(scheds, fmt.Sprintf("chunk=%d,bigreq=%d", scs.ChunkSize, bigReq))
+			m.Count("runs_with_large_requests", 1)
+		}
 		outstanding := map[float64]chan string{} // tid -> pending decode of its answer (beta/gamma)
 		expectType := map[string]string{"connect": "*rtmp.ConnectAppResPacket", "createStream": "*rtmp.CreateStreamResPacket"}
 		bad := false
@@ -237,6 +251,14 @@ func TestVerif_C04_Schedules(t *testing.T) {
 				} else {
 					p := NewCreateStreamPacket()
 					p.TransactionID = amf0.Number(tid)
+					if bigReq > 0 {
+						o := amf0.NewObject()
+						o.Set("filler", amf0.NewString(strings.Repeat("x", bigReq%60000)))
+						if bigReq >= 60000 {
+							o.Set("filler2", amf0.NewString(strings.Repeat("y", 30000)))
+						}
+						p.CommandObject = o
+					}
 					pkt = p
 				}
 				x.log("call", tid, 0, name)
